@@ -679,9 +679,15 @@ class Engine:
             return None
         hdr = _loop_header(st)
         # 1. an invariant written for exactly this header (robust against loops added/removed before it)
-        for o, inv in c.invariants.items():
-            if inv.get('header') and _norm(inv['header']) == _norm(hdr):
-                return inv
+        same = [(o, inv) for o, inv in c.invariants.items() if inv.get('header') and _norm(inv['header']) == _norm(hdr)]
+        if len(same) == 1:
+            return same[0][1]
+        if len(same) > 1:
+            # several loops with the same header text (``while 1``): the ordinal decides among them
+            for o, inv in same:
+                if o == ordn:
+                    return inv
+            return None
         # 2. by ordinal, when the header it was written for no longer exists anywhere in the
         #    function (the loop itself was edited): the obligations decide
         inv = c.invariants.get(ordn)
